@@ -381,8 +381,10 @@ structure OpDecl where
   topProj : Option String
   zone : String
   counts : List Tree
-  gkind : String
-  grading : List Tree
+  /-- `all(axis.is_simple)` (opaque: C01–C04) -/
+  simple : Bool
+  /-- `Wire.grading.description` of the 12 wires, keyed by the wire's corner pair (opaque values) -/
+  wireGrading : List (Nat × Nat × List Tree)
   edges : List EdgeDecl                 -- bottom 0..3, top 0..3, side 0..3
   deriving Repr
 
@@ -541,8 +543,25 @@ def addGeometry (gs : List GEntry) (g : GEntry) : List GEntry :=
 def vertexEntry (v : C05.Vertex Corner) : VEntry :=
   ⟨v.pos.coords, v.pos.proj, "// " ++ toString v.index⟩
 
+/-- the grading description of the wire between two corners -/
+def wireGradingOf (o : OpDecl) (a b : Nat) : List Tree :=
+  match o.wireGrading.find? (fun w => (w.1 == a && w.2.1 == b) || (w.1 == b && w.2.1 == a)) with
+  | some w => w.2.2
+  | none => []
+
+/-- `Block.format_grading`: the wires of every axis in the order of `constants.AXIS_PAIRS`
+    (generated); `simpleGrading` takes the first wire of each axis, `edgeGrading` all twelve -/
+def gradingOf (o : OpDecl) : String × List Tree :=
+  if o.simple then
+    ("simpleGrading", CBV.Gen.axisPairs.flatMap (fun row =>
+      match row.head? with
+      | some (a, b) => wireGradingOf o a b
+      | none => []))
+  else
+    ("edgeGrading", CBV.Gen.axisPairs.flatMap (fun row => row.flatMap (fun ab => wireGradingOf o ab.1 ab.2)))
+
 def blockEntry (i : Nat) (o : OpDecl) (verts : List Nat) : BEntry :=
-  ⟨verts, o.zone, o.counts, o.gkind, o.grading, "// " ++ toString i⟩
+  ⟨verts, o.zone, o.counts, (gradingOf o).1, (gradingOf o).2, "// " ++ toString i⟩
 
 /-- non-deleted operations in depot order -/
 def declOps (d : Decl) : List OpDecl := liveOps d.depot
@@ -790,6 +809,12 @@ def rdEdge : Rd EdgeDecl := do
   let bwd ← rdTrees
   pure ⟨repr, valid, preF, fwd, preB, bwd⟩
 
+def rdWire : Rd (Nat × Nat × List Tree) := do
+  let a ← rdNat
+  let b ← rdNat
+  let g ← rdTrees
+  pure (a, b, g)
+
 def rdOp : Rd OpDecl := do
   let deleted ← rdBool
   let corners ← rdRepeat rdCorner 8
@@ -799,10 +824,10 @@ def rdOp : Rd OpDecl := do
   let tp ← rdOptStr
   let zone ← rdStr
   let counts ← rdTrees
-  let gkind ← rdStr
-  let grading ← rdTrees
+  let simple ← rdBool
+  let wg ← rdRepeat rdWire 12
   let edges ← rdRepeat rdEdge 12
-  pure ⟨deleted, corners, patches, sideProj, bp, tp, zone, counts, gkind, grading, edges⟩
+  pure ⟨deleted, corners, patches, sideProj, bp, tp, zone, counts, simple, wg, edges⟩
 
 def rdGEntry : Rd GEntry := do
   let n ← rdStr
